@@ -227,7 +227,8 @@ impl PqFold for SortingInference<'_> {
                             .anchor
                             .relation_instances
                             .iter_mut()
-                            .find(|(_riid, rel_inst)| rel_inst.table_ref.source == cte.tid)
+                            .filter(|(_riid, rel_inst)| rel_inst.table_ref.source == cte.tid)
+                            .min_by_key(|(riid, _rel_inst)| riid.0)
                             .unwrap();
 
                         cid_redirects_to_add
